@@ -22,6 +22,8 @@ TEXT = {
  'C03': ("Verus proves include_coord/include_bbox are least upper bounds and that filters, overlay and converter advertise a coverage containing every tile they can return (given C03 of their sources); Kani proves the pyramid union/intersection laws over all 32 levels.",
          "Trusted: source contract; MBTiles SQL and tar/directory file-name parsing are not under contract."),
 }
+TEXT['C20'] = ("Kani checks the inductive step on the real LimitedCache bodies: from an arbitrary cache state satisfying the invariant (size <= capacity, distinct keys, stamps bounded and distinct) one symbolic get / add / get_or_set re-establishes the invariant and satisfies the operation's postcondition over the whole view, and a just-used entry survives the next eviction; histories of any length follow. Bounded in capacity (HashMap stand-in CAP = 4), so labelled bounded, not proved.",
+         "Trusted: array-backed HashMap stand-in (finite map), insertion-sort stub for sort_unstable, no stamp-counter overflow. Capacities above 4 not covered.")
 NA = {
  'C01': 'not built yet (planned: codec and addressing cores, DESIGN §3 C01)',
  'C07': 'std::path / OS path resolution semantics decide the property; no contract on repository code can express it (Kani probe through real std::path timed out) — DESIGN §5',
@@ -34,7 +36,6 @@ NA = {
  'C17': 'String/char/fmt/float-formatting code: Verus has no str theory, Kani single-char probe timed out — DESIGN §5',
  'C18': 'nom parser combinators: semantics lives in the library, not in function bodies that can carry contracts — DESIGN §5',
  'C19': 'not built yet',
- 'C20': 'not built yet',
 }
 EXTRA_TEXT = {}
 try:
@@ -59,7 +60,7 @@ for p in claimed:
         'evidence_file': f'/verif/evidence/{p}.json',
         'replay_cmd_template': f'python3 check.py {p} --replay {{path}}',
         'engine': '+'.join(eng),
-        'level_claimed': {'category': 'proof', 'text': t, 'design_ref': f'DESIGN.md §3 {p}'},
+        'level_claimed': {'category': cfg.get('level', 'proof'), 'text': t, 'design_ref': f'DESIGN.md §3 {p}'},
         'level_note': note,
         'technique': tech,
     })
